@@ -234,6 +234,11 @@ func (r *RootExpr) Finalize() {
 func (m MetaExpr) Dup() MetaExpr {
 	d := make(MetaExpr, len(m))
 	for k, v := range m {
+		if v != nil {
+			// copy the values so that appending to the copy (AddMeta)
+			// cannot write into the original's backing array
+			v = append(make([]string, 0, len(v)), v...)
+		}
 		d[k] = v
 	}
 	return d
